@@ -124,6 +124,8 @@ SCHEMAS = [
                               "items": {"type": "integer"}, "minItems": 1}),
     ("free_object", {"type": "object"}),
     ("date_only", {"type": "string", "format": "date"}),
+    # the recorded finding C06/escaped-key-bypasses-properties: a key spelled with a needless \u escape
+    ("escaped_key", {"type": "object", "properties": {"\u00e9": {"type": "null"}}, "additionalProperties": {"type": "number"}}),
     # two multipleOf values whose least common multiple does not fit 32 bits (was: silent wrap, see known_findings fixed:)
     ("lcm_overflow", {"type": "integer", "allOf": [{"multipleOf": 65536}, {"multipleOf": 65537}]}),
     ("ws_flexible", {"x-guidance": {"whitespace_flexible": True}, "type": "object",
@@ -137,6 +139,7 @@ EXTRA_INSTANCES = {"prefix_false": ["[]", "[1]", "[1,2]", '[1,"x"]', "[1,2,3]"],
                    "prefix_contradiction": ['["x"]', '["x",true]', '["x",true,1]', '["x",true,"s"]', '["x",true,null,4]', "[]"],
                    "lcm_overflow": ["65536", "131072", "0", "4295032832"],
                    # the recorded finding: February 29 is accepted in every year
+                   "escaped_key": ['{"\\u00e9":-7.12}', '{"\u00e9":null}', '{"\u00e9":1}', "{}"],
                    "date_only": ['"2023-02-29"', '"2024-02-29"', '"2023-02-30"', '"1900-02-29"']}
 
 
